@@ -218,12 +218,16 @@ PROPS = {
                       "Complex step over (re, im) pairs of real arrays: purely imaginary one-hot perturbation columns 1j h_k e_{I_k} (h_k != 0 when the step is), "
                       "quotients Im F(x + P[:,k]) / h_k for any subset of components, sequential and parallel (the column sum used as divisor is the one-hot "
                       "entry: lemma by induction). Glue: BaseGradientApproximator.f_gradient (with generate_perturbations inlined) for forward and centered "
-                      "differences without design space, scalar or default step, any x_indices (all the components, in order, when empty), sequential or parallel: "
-                      "J[i, k] is the quotient at the perturbed points x +- h e_{I_k}, shape (m, len(I)); parallel centered differences return the quotients of the "
+                      "differences without design space, default step, one global step or ONE STEP PER INPUT COMPONENT (perturbation k uses the step of component "
+                      "I_k and the forward quotient divides by that same step), any x_indices (all the components, in order, when empty), sequential or parallel: "
+                      "J[i, k] is the quotient at the perturbed points x +- h_k e_{I_k}, shape (m, len(I)); parallel centered differences return the quotients of the "
                       "sequential computation. Discipline level: split_array_to_dict_of_arrays places block (a, b) = rows of output a x columns of input b at the "
                       "prefix sums of the sizes (one and two levels, loop invariants, recursion through its own contract); DisciplineJacApprox.compute_approx_jac "
                       "returns jac[o][x] = that block of the complete flat Jacobian, which is the approximator's Jacobian J (all components) or the zero matrix "
-                      "whose column x_indices[k] is column k of J; Discipline.__compute_jacobian stores exactly this in self.jac in the three approximation modes.",
+                      "whose column x_indices[k] is column k of J; Discipline.__compute_jacobian stores exactly this in self.jac in the three approximation modes. DisciplineJacApprox.check_jacobian "
+                      "(no `indices`, no reference file, no plot): approximates with compute_approx_jac and succeeds iff every (output, input) block of the approximated "
+                      "Jacobian has an analytic counterpart (the given Jacobian, or discipline.jac) of the same shape within `threshold` in numpy.allclose's norm "
+                      "(atol = rtol = threshold; two nested loop invariants over the dict of dicts).",
         "level_note": "Trusted: pyvc, the numpy model (npmodel.py: rank<=2 real arrays, paired fancy indexing, tile/reshape/T pattern), reals for floats; "
                       "pyvc/plug_c16.py (list displays with starred items, [f]*n, lists of arrays, selection union type, flattening comprehension relative to "
                       "contract-supplied offsets whose prefix-sum recurrence is a generated obligation). ASSUMED: the parallel execution is seen through the summary "
@@ -237,7 +241,8 @@ PROPS = {
                       "convert_data_to_array: length = total size), _create_approximator (the function handed to the approximator concatenates the outputs in "
                       "output_names order: output dimension = total output size), the approximator seen through the shape-only summary of f_gradient, no cache "
                       "(__set_zero_cache_tol only yields), sum(dict.values()) as an uninterpreted total stated by the converter contract. "
-                      "Not covered: check_jacobian comparison loop, auto_set_step, float rounding.",
+                      "numpy.allclose is an uninterpreted predicate of the two blocks and the tolerances. Four defects found with these contracts were repaired "
+                      "(07a0abc: per-component steps with a subset of components). Not covered: check_jacobian with `indices` / reference file, auto_set_step, float rounding.",
         "design_ref": "DESIGN.md §4 C16",
         "modules": ["contracts.c16_derivatives", "contracts.c16_approx", "contracts.c16_complex", "contracts.c16_centered", "contracts.c16_discipline"],
         "assumptions": ["CallableParallelExecution.execute: summary of its C13 contract (result:length, result:positional) for tasks that all succeed; extra **kwargs of the "
@@ -250,10 +255,11 @@ PROPS = {
                         "sum of a vector with a single non-zero entry = that entry (OneHotSumLemmas, proved by induction; applied under the generated one-hot obligation)"],
         "not_covered": ["centered differences: ||2 h e|| = 2|h| (norm uninterpreted), hence the textbook quotient; a NEGATIVE centered step returns the opposite Jacobian "
                         "(division by 2|h|; observation, not repaired)", "ComplexStep.f_gradient (complex input check) and step setter",
-                        "DisciplineJacApprox.check_jacobian (comparison of the analytic and approximated blocks, threshold, shape check, pickled reference), auto_set_step, "
+                        "DisciplineJacApprox.check_jacobian WITH `indices` (restriction of the blocks to the selected rows / columns; _compute_variable_indices itself is verified), "
+                        "with a pickled reference Jacobian or a plot; auto_set_step, "
                         "_create_approximator / DisciplineAdapterGenerator (assumed), compute_approx_jac with a cache (tolerance save/restore)",
                         "Discipline.linearization_mode setter, set_jacobian_approximation, Discipline.check_jacobian, linearize",
-                        "f_gradient with a design space, with per-component step arrays (reported: ValueError with a strict subset of components after auto_set_step) and for the complex step",
+                        "f_gradient with a design space and for the complex step",
                         "compute_optimal_step / _get_opt_step", "slices with a step in check_jacobian indices; a NEGATIVE integer component is added to the offset as is (flat index in the previous variable; observation)",
                         "float cancellation error"],
     },
@@ -1106,7 +1112,12 @@ PROPS["C19"] = {
                   "design-space and parameter-space invariants hold afterwards (this ESTABLISHES the invariant assumed by the transformations); remove_variable rebuilds that joint "
                   "distribution from exactly the remaining uncertain variables; (g) compute_samples: the n x d matrix of exactly ONE draw from the joint distribution of all uncertain "
                   "variables, and with as_dict one dictionary per row whose keys are exactly the uncertain variables, each entry being the block of its variable laid out along "
-                  "uncertain_variables in order. REPAIRED in /repo bc82ce9 (found here): normalize_vect / unnormalize_vect dropped `minus_lb` (normalize_grad / unnormalize_grad of a "
+                  "uncertain_variables in order; (h) rename_variable: C02 postcondition + uncertain_variables keeps its order with the name replaced AT THE SAME POSITION, the distribution is "
+                  "re-keyed, the invariant is kept and marginal block i of the (not rebuilt) joint distribution is still the distribution of uncertain_variables[i]; (i) log-normal "
+                  "laws: compute_mu_l_and_sigma_l(mu, sigma, location) returns sigma_l >= 0 with sigma_l^2 = log(1 + (sigma/(mu - location))^2) and mu_l = log(mu - location) - "
+                  "sigma_l^2/2 (log / sqrt uninterpreted, ground instances of their usual axioms), lemma: the law with these parameters shifted by location has mean mu and variance "
+                  "sigma^2 (exp(log t) = t, exp(a+b) = exp(a)exp(b)); SPLogNormalDistribution forwards lognorm(s=sigma_l, loc=location, scale=exp(mu_l)), OTLogNormalDistribution "
+                  "LogNormal(mu_l, sigma_l, location). REPAIRED in /repo bc82ce9 (found here): normalize_vect / unnormalize_vect dropped `minus_lb` (normalize_grad / unnormalize_grad of a "
                   "ParameterSpace were wrong); the deterministic blocks are now proved to be those of the design-space map WITH THE GIVEN minus_lb. KNOWN FINDING "
                   "(known_findings.json, region last-uncertain-variable-removed): remove_variable leaves `distribution` describing the removed variable when the LAST uncertain "
                   "variable is removed (compute_samples still samples it).",
@@ -1120,7 +1131,8 @@ PROPS["C19"] = {
                   "distribution parameters (same clauses as the verified default-parameter variant: the parameters only select the marginals), __get_random_vector_size, "
                   "DesignSpace.add_variable on a parameter space (C02 postcondition + ParameterSpace fields untouched + the given bounds / value recorded in ghosts), distribution "
                   "classes as abstract values (factory, cls(), cls.JOINT_DISTRIBUTION_CLASS(marginals), cls.__name__[0:2]), the sampler of the joint distribution of all "
-                  "uncertain variables (new n x d matrix, ghost record), the update of __uncertain_variables_to_definitions is skipped, split_array_to_dict_of_arrays / concatenate_dict_of_arrays_to_array (abstract blocks c19_block / "
+                  "uncertain variables (new n x d matrix, ghost record), the update of __uncertain_variables_to_definitions is skipped (that every uncertain variable has a definition is a precondition of rename_variable), "
+                  "OTDistribution.__init__ (name and positional parameters recorded in ghosts; its _create_distribution is verified), split_array_to_dict_of_arrays / concatenate_dict_of_arrays_to_array (abstract blocks c19_block / "
                   "c19_concatenate relative to the ghost layout c19_variable_size = sizes of the variables of the entry state; their mutual-inverse algebra is a hypothesis of the "
                   "round-trip lemma), DesignSpace.normalize_vect / unnormalize_vect at this level (uninterpreted functions of variables, policies, flag, minus_lb and the vector; their "
                   "component-wise content and bijectivity are proved under C02; the cached normalisation data they refresh are not part of the state modelled here), the C02 "
@@ -1144,11 +1156,11 @@ PROPS["C19"] = {
                     "x_vect / vector is a rank-1 array; out is None"],
     "not_covered": ["numerical values of cdf / ppf / moments of any law, their mutual inverseness and monotony in floating point, samples lying in the reported support, analytical moments vs reported "
                     "range / mean / standard deviation, agreement of the SciPy- and OpenTURNS-based versions of the same law (all third-party, floating point: only stated as hypotheses)",
-                    "empirical statistics (gemseo.uncertainty.statistics), fitting, Dirac / Weibull / log-normal named distributions (string selection, exp / log), ALL named OpenTURNS-based classes "
+                    "empirical statistics (gemseo.uncertainty.statistics), fitting, Dirac / Weibull named distributions, the named OpenTURNS-based classes other than log-normal "
                     "and OTDistribution.__init__ (heterogeneous **options forwarding is outside the engine's subset), OTDistribution.__truncate_distribution's ValueError conditions (comparisons "
                     "with infinite support bounds)",
                     "add_random_vector WITH distribution parameters / interfaced distributions (per-component broadcasting of the parameter collections, distribution_class(**kwargs), textual "
-                    "definitions: assumed summary), that the stored bounds of the design variable equal the given vectors numerically (C02 link level), add_variables_from, rename_variable, "
+                    "definitions: assumed summary), that the stored bounds of the design variable equal the given vectors numerically (C02 link level), add_variables_from, "
                     "init_from_dataset, to_design_space, extract_uncertain_space / extract_deterministic_space (DesignSpace.filter / deep copy), __getitem__ / __setitem__, tabular views",
                     "BaseJointDistribution.compute_samples, OTJointDistribution.compute_samples, joint _create_distribution (comprehensions with third-party side effects, OpenTURNS "
                     "ComposedDistribution / copulas); that the number of columns of compute_samples is the sum of the sizes of the uncertain variables and that its columns follow the "
